@@ -388,6 +388,9 @@ impl<T: Types> RaftLog<T> {
         to: u64,
     ) -> impl Iterator<Item = Result<(T::LogId, T::LogPayload), io::Error>> + '_
     {
+        // `BTreeMap::range()` panics if the start is greater than the end.
+        let to = to.max(from);
+
         self.state_machine.log.range(from..to).map(|(_, log_data)| {
             let log_id = log_data.log_id.clone();
 
